@@ -93,6 +93,53 @@ def run(ctx, F, cg):
             ctx.ok("R15c", "calculate_checksum|covers|" + f, "field %s is part of the checksummed bytes" % f)
         else:
             ctx.violation("R15c", "WalRecord::calculate_checksum|field-not-covered|" + f, where(cc), "the checksum does not cover WalRecord.%s: a corrupted %s is returned unnoticed" % (f, f))
+    # ---- R15g: the checksum folds every byte ---------------------------------------------------------------------
+    ctx.rule("R15g", "the checksum folds every byte of the serialized entry: the byte sequence reaches the fold through element-wise iteration only (iter / copied / cloned / for); a chunking, stepping, windowing or truncating adaptor (chunks_exact, step_by, take, skip, ...) leaves trailing or skipped bytes outside the checksum")
+    PARTIAL = ("chunks_exact", "chunks", "rchunks", "rchunks_exact", "step_by", "take", "skip", "windows", "split_at", "split_first", "split_last", "take_while", "skip_while", "array_chunks", "truncate", "get")
+    part = sorted({c.path.rsplit("::", 1)[-1] for c in cb.calls() if c.path.rsplit("::", 1)[-1] in PARTIAL})
+    for clp in F.fns[cc["path"]]["closures"]:
+        for c_ in F.fns.get(clp, {}).get("calls", []):
+            if c_.rsplit("::", 1)[-1] in PARTIAL:
+                part.append(c_.rsplit("::", 1)[-1])
+    folds = [c for c in cb.calls() if c.path.rsplit("::", 1)[-1] in ("fold", "for_each", "sum", "next", "reduce")]
+    if part and not any(c.path.rsplit("::", 1)[-1] == "remainder" for c in cb.calls()):
+        ctx.violation("R15g", "calculate_checksum|partial-coverage|" + part[0], where(cc), "calculate_checksum walks the serialized entry through `%s`: the bytes that adaptor leaves out (e.g. the last len %% 4 bytes of chunks_exact(4)) are not covered, and a flip in them is returned by replay as a valid record" % part[0])
+    elif not folds:
+        ctx.violation("R15g", "calculate_checksum|no-fold", where(cc), "cannot find the fold over the serialized bytes")
+    else:
+        ctx.ok("R15g", "calculate_checksum|all-bytes", "element-wise %s over the serialized entry" % folds[0].path.rsplit("::", 1)[-1])
+    # ---- R15h: the start sequence is at least everything already recorded -------------------------------------------
+    ctx.rule("R15h", "a reopened log continues after everything it holds: evaluated on a grid, the value assigned to Wal.sequence in Wal::new is >= each of its sources (the newest file's name sequence, the last recorded sequence) — `x.saturating_sub(1)` re-issues a sequence and appends into an existing file after torn bytes")
+    nb_ = Body(F.mir(nw["path"]), nw)
+    assigns = [(i, rv, line) for i, j, pl, rv, line, exp in nb_.stmts() if any(p.endswith("Wal.sequence") for p in pl[1] if p.startswith("f:"))]
+    aggs_ = [(i, rv, line) for i, j, pl, rv, line, exp in nb_.stmts() if rv[0] == "agg" and rv[1].endswith("wal::Wal")]
+    exprs = []
+    for i, rv, line in assigns:
+        if rv[0] == "use":
+            exprs.append((od.expr_of(nb_, rv[1]), line))
+    wadt = F.adt("persistence::wal::Wal")
+    wf = [f[0] for f in wadt["variants"][0]["fields"]]
+    for i, rv, line in aggs_:
+        exprs.append((od.expr_of(nb_, rv[2][wf.index("sequence")]), line))
+    ctx.floor("R15h", "values given to Wal.sequence in Wal::new", len(exprs), 1)
+    for k_, (e_, line) in enumerate(exprs):
+        rts = od.roots(e_)
+        # a read of the field itself (wal.sequence.max(..)) is a root standing for the previous value
+        try:
+            import itertools
+            bad = None
+            for vals in itertools.product(range(0, 4), repeat=len(rts)):
+                env = dict(zip(rts, vals))
+                v = od.evaluate(e_, env)
+                if rts and v < max(vals):
+                    bad = (vals, v)
+                    break
+            if bad:
+                ctx.violation("R15h", "new|sequence|%d|below-its-source" % k_, where(nw, line), "Wal::new computes the starting sequence as %s, which is below one of its sources for %s -> %s: the reopened log re-issues a sequence number that is already in use" % (od.show(e_), bad[0], bad[1]))
+            else:
+                ctx.ok("R15h", "new|sequence|%d" % k_, "%s >= each of its %d source(s) on the grid" % (od.show(e_), len(rts)))
+        except Exception as ex:
+            ctx.violation("R15h", "new|sequence|%d|not-evaluable" % k_, where(nw, line), "the starting sequence %s cannot be evaluated (closed world: max, min, +, -, saturating_*): %s" % (od.show(e_), ex))
     # ---- R15d ------------------------------------------------------------------------------------------
     ap = F.fn(WAL + "append")
     ab = Body(F.mir(ap["path"]), ap)
